@@ -26,6 +26,26 @@ type FListener struct {
 	cond    *sync.Cond
 	backlog []*FEnd
 	closed  bool
+	failN   int // the next failN Accept calls fail with failErr
+	failErr error
+}
+
+// FailAccepts makes the next n Accept calls of every listener fail with err (descriptor exhaustion hits all
+// listeners of a process at once).
+func (n *FreeNet) FailAccepts(k int, err error) int {
+	n.mu.Lock()
+	var ls []*FListener
+	for _, l := range n.listeners {
+		ls = append(ls, l)
+	}
+	n.mu.Unlock()
+	for _, l := range ls {
+		l.mu.Lock()
+		l.failN, l.failErr = k, err
+		l.cond.Broadcast()
+		l.mu.Unlock()
+	}
+	return len(ls)
 }
 
 func (n *FreeNet) Listen(network, addr string) (net.Listener, error) {
@@ -43,11 +63,15 @@ func (n *FreeNet) Listen(network, addr string) (net.Listener, error) {
 func (l *FListener) Accept() (net.Conn, error) {
 	l.mu.Lock()
 	defer l.mu.Unlock()
-	for !l.closed && len(l.backlog) == 0 {
+	for !l.closed && len(l.backlog) == 0 && l.failN == 0 {
 		l.cond.Wait()
 	}
 	if l.closed {
 		return nil, opErr("accept", net.ErrClosed)
+	}
+	if l.failN > 0 {
+		l.failN--
+		return nil, opErr("accept", l.failErr)
 	}
 	e := l.backlog[0]
 	l.backlog = l.backlog[1:]
